@@ -338,24 +338,33 @@ pub fn run_case(c: &Case) -> (String, String) {
         // painted or not, hence a painted frame shows every bar's latest requested rendering
         if verdict == "ok" && !c.small && (c.hz == 0 || rec.flushes() > flushes_before) && !bottom_used && !cleared_since_draw && checkable == logs.len() && rec.flushes() > 0 {
             let region: Vec<String> = rows[at.min(rows.len())..].to_vec();
+            // a frame taller than the terminal is cut off at its height (C19's streams judge those): the members' latest renderings must fit
+            // (counted generously: every bar that has ever been drawn and was not removed, dropped or not — a dropped bar stays in the frame until it is reaped)
+            let needed: usize = bars.iter().filter(|b| !b.removed).filter_map(|b| b.acceptable.last().or(b.finished_visible_render.as_ref())).map(|r| r.iter().map(|l| wrap(l, w).len()).sum::<usize>()).sum();
+            // (rows of finished, dropped members that are not reaped yet are part of the frame too: the whole region must be shorter than the terminal)
+            let fits_terminal = needed <= c.h as usize && region.len() < c.h as usize;
             let mut pos_of: Vec<(usize, usize, usize)> = Vec::new();  // (bar, start, len)
             let mut claimed = vec![false; region.len()];
             let mut cursor = 0usize;
             for &k in &order {
+                if !fits_terminal { break; }
                 let info = &bars[k];
                 if info.pb.is_none() || info.acceptable.is_empty() { continue; }
                 let mut found: Option<(usize, usize)> = None;
                 for cand in info.acceptable.iter().rev() {
                     let chunks: Vec<String> = cand.iter().flat_map(|l| wrap(l, w)).collect();
                     if chunks.is_empty() { found = Some((cursor, 0)); break; }
-                    if let Some(i) = (0..region.len()).find(|&i| i + chunks.len() <= region.len() && (0..chunks.len()).all(|j| region[i + j] == chunks[j] && !claimed[i + j])) { found = Some((i, chunks.len())); break; }
+                    // (a row of this rendering may also occur elsewhere — the wrapped rest of another bar's line, a dropped bar's final row:
+                    // positions at or below the bars found so far are tried first)
+                    let fits = |i: usize| i + chunks.len() <= region.len() && (0..chunks.len()).all(|j| region[i + j] == chunks[j] && !claimed[i + j]);
+                    if let Some(i) = (cursor..region.len()).find(|&i| fits(i)).or_else(|| (0..cursor.min(region.len())).find(|&i| fits(i))) { found = Some((i, chunks.len())); break; }
                 }
                 match found {
                     None => { verdict = format!("FAIL C02 live-bar-missing op={k_op} {} bar={k} region={}", op.enc(), show_rows(&region)); break; }
                     Some((i, n)) => { if n > 0 { if i < cursor && !order_ambiguous { verdict = format!("FAIL C02 order op={k_op} {} bar={k} region={}", op.enc(), show_rows(&region)); break; } for j in 0..n { claimed[i + j] = true; } cursor = i + n; } pos_of.push((k, i, n)); }
                 }
             }
-            if verdict == "ok" {
+            if verdict == "ok" && fits_terminal {
                 // unclaimed rows must come from final renderings of dropped, visibly finished bars
                 let finals: Vec<String> = bars.iter().filter_map(|b| b.finished_visible_render.as_ref()).flat_map(|r| r.iter().flat_map(|l| wrap(l, w))).collect();
                 for (i, r) in region.iter().enumerate() { if !claimed[i] && !r.is_empty() && !finals.contains(r) && !lingering.contains(r) { verdict = format!("FAIL C02 stale-row op={k_op} {} row={r:?} region={}", op.enc(), show_rows(&region)); break; } }
